@@ -2087,6 +2087,8 @@ class VM:
             count = to_int(args[0]) if args else 0
             if count < 0 or count == math.inf:
                 raise JSRangeError("Invalid count value")
+            if len(s) * count > 2**30 - 25:  # largest string length (as in V8)
+                raise JSRangeError("Invalid string length")
             return s * count
 
         def startsWith(*args):
